@@ -9,6 +9,7 @@ import Gts.Model.OpsFeat
 import Gts.Model.OpsIO
 import Gts.Model.OpsMem
 import Gts.Model.OpsCli
+import Gts.Model.OpsCliFault
 import Gts.Model.OpsReg
 import Gts.Model.OpsGb
 import Gts.Model.OpsLocator
@@ -20,7 +21,7 @@ import Gts.Model.OpsGbSlice
 namespace Gts
 
 def evalOp (op : String) (args : List Sexp) : Option String :=
-  [evalCore, evalOrigin, evalNuc, evalCache, evalFeat, evalIO, evalMem, evalCli, evalReg, evalGb, evalLocator, evalRepair, evalParse, evalGenBank, evalKeyEnc, evalGbSlice].firstM fun h => h op args
+  [evalCore, evalOrigin, evalNuc, evalCache, evalFeat, evalIO, evalMem, evalCli, evalCliFault, evalReg, evalGb, evalLocator, evalRepair, evalParse, evalGenBank, evalKeyEnc, evalGbSlice].firstM fun h => h op args
 
 def evalLine (line : String) : String :=
   match Sexp.parseLine line with
